@@ -1,4 +1,5 @@
 import SasLexer.Spec.C20
+import SasLexer.Msgpack
 /-!
 # C20 — theorems
 
